@@ -41,6 +41,13 @@ theorem good_unary_plain (kind : MethodKind) (body : Body) (ctype : CType) (toke
     · rfl
     · rfl
     · rfl
+    · cases body
+      · rfl
+      · rename_i e; cases e <;> rfl
+      · rename_i m; cases m <;> rfl
+      · rename_i d; cases d <;> rfl
+      · rfl
+      · rename_i e; cases e <;> rfl
   · rfl
   · rfl
   · rfl
@@ -65,30 +72,55 @@ theorem good_init_plain (kind : MethodKind) (body : Body) (ctype : CType) (token
       · cases beh <;> rfl
       · rename_i e; cases e <;> rfl
     · rfl
+    · rfl
   · rfl
   · rfl
   · rfl
+
+theorem good_exchange_producer (body : Body) (token : Token) (beh : Behaviour) :
+    good ⟨.exchange, .producer, body, .correct, .none, .within, .ok, token, beh⟩ = true := by
+  cases body
+  · cases token <;> first | rfl | (cases beh <;> rfl)
+  · rename_i e; cases e <;> rfl
+  · rename_i m; cases m <;> cases token <;> first | rfl | (cases beh <;> rfl)
+  · rename_i d; cases d <;> cases token <;> first | rfl | (cases beh <;> rfl)
+  · cases token <;> rfl
+  · cases token <;> first | rfl | (cases beh <;> rfl)
+
+theorem good_exchange_exchanger (body : Body) (token : Token) (beh : Behaviour) :
+    good ⟨.exchange, .exchanger, body, .correct, .none, .within, .ok, token, beh⟩ = true := by
+  cases body
+  · cases token <;> first | rfl | (cases beh <;> rfl)
+  · rename_i e; cases e <;> rfl
+  · rename_i m; cases m <;> cases token <;> first | rfl | (cases beh <;> rfl)
+  · rename_i d; cases d <;> cases token <;> rfl
+  · cases token <;> rfl
+  · cases token <;> first | rfl | (cases beh <;> rfl)
 
 theorem good_exchange_plain (kind : MethodKind) (body : Body) (ctype : CType) (token : Token) (beh : Behaviour) :
     good ⟨.exchange, kind, body, ctype, .none, .within, .ok, token, beh⟩ = true := by
   cases ctype
   · cases kind
     · rfl
-    · cases body
-      · cases token <;> first | rfl | (cases beh <;> rfl)
-      · rename_i e; cases e <;> rfl
-      · cases token <;> first | rfl | (cases beh <;> rfl)
-      · cases token <;> first | rfl | (cases beh <;> rfl)
-      · cases token <;> rfl
-      · cases token <;> first | rfl | (cases beh <;> rfl)
-    · cases body
-      · cases token <;> first | rfl | (cases beh <;> rfl)
-      · rename_i e; cases e <;> rfl
-      · cases token <;> first | rfl | (cases beh <;> rfl)
-      · rename_i d; cases d <;> cases token <;> rfl
-      · cases token <;> rfl
-      · cases token <;> first | rfl | (cases beh <;> rfl)
+    · exact good_exchange_producer _ _ _
+    · exact good_exchange_exchanger _ _ _
     · rfl
+    · rfl
+  · rfl
+  · rfl
+  · rfl
+
+/-- the framework's upload-URL route: the method kind named by the path plays no role -/
+theorem good_upload_plain (kind : MethodKind) (body : Body) (ctype : CType) (token : Token) (beh : Behaviour) :
+    good ⟨.uploadUrl, kind, body, ctype, .none, .within, .ok, token, beh⟩ = true := by
+  cases ctype
+  · cases body
+    · cases beh <;> rfl
+    · rename_i e; cases e <;> rfl
+    · rename_i m; cases m <;> first | rfl | (cases beh <;> rfl)
+    · rename_i d; cases d <;> first | rfl | (cases beh <;> rfl)
+    · cases beh <;> rfl
+    · cases beh <;> rfl
   · rfl
   · rfl
   · rfl
@@ -110,6 +142,7 @@ theorem good_all (rq : Req) : good rq = true := by
     · exact good_unary_plain _ _ _ _ _
     · exact good_init_plain _ _ _ _ _
     · exact good_exchange_plain _ _ _ _ _
+    · exact good_upload_plain _ _ _ _ _
   cases size
   · cases cenc
     · cases auth
